@@ -339,6 +339,10 @@ def ref_single(letter, part, base, in_linked=None):
     """What the guide says about one adapter (`in_linked`: None, 'front' or 'back').
     base: dict e (Fraction), o (int), indels (bool): file-level over global settings.
     Returns dict | 'error' | UNDET."""
+    if not part.seq() and part.restr in ("XL", "XR"):
+        # nothing left after x{0}, so that the restriction X *is* the adapter: all-X sequences are accepted "for backwards
+        # compatibility" (parameters ignored), which the guide does not describe
+        return UNDET
     d = norm_params(part.params)
     if d == "error":
         return "error"
@@ -450,13 +454,13 @@ def reference(ds, g):
         parts = [Part(p.name, p.restr, p.runs, p.params) for p in parts]
         if ds.anchor == "^":
             if parts[0].restr:
-                return "error" if not out else UNDET     # two placement restrictions
+                return UNDET            # a record that carries its own restriction: the guide does not say
             parts[0].restr = "^"
         elif ds.anchor == "$":
             if parts[-1].params:
                 return UNDET            # see observation file$-with-record-parameters
             if parts[-1].restr:
-                return "error" if not out else UNDET
+                return UNDET
             parts[-1].restr = "$"
         words = hdr.split()
         r = ref_adapter(ds.letter, parts, base, name=words[0] if words else None)
@@ -795,7 +799,7 @@ def _run(ctx, rng, impl):
         if records is not None:
             inputs["ad.fa"] = "".join(f">{h}\n{s}\n" for h, s in records)
             spec = {"": "file:", "^": "^file:", "$": "file$:"}[spec[0]] + "{in:ad.fa}" + spec[1]
-        res = run_cli(g.argv() + ["-" + letter, spec, "{in:in.fq}"], inputs, want_json=False)
+        res = run_cli(g.argv() + ["-" + letter, spec, "-o", "{out:out.fq}", "{in:in.fq}"], inputs, want_json=False)
         ctx.evaluations += 1
         ctx.count(f"cli:status={res.status}")
         want = 2 if must_fail else 0
